@@ -6,6 +6,8 @@
 //  PART 2 (holes): templates with symbolic-byte holes (indices of pr/Pr/Fi, long integers, call
 //          arguments) through the same entry points.
 //  PART 3 (evaluate): the same token sequences through RSModel (Emplace of a term + Calculate).
+//  PART 4 (reused analysers): one Parser and one SchemaAuditor first process an input from a menu of multi-line /
+//          failing texts and then a token sequence: the verdict/position contract must hold for the SECOND input too.
 #include "sym.h"
 #include "h_schema.h"
 #include "ccl/api/RSFormJA.h"
@@ -49,7 +51,26 @@ static void checkLog(const rslang::ErrorLogger& log, bool ok, const std::string&
   for (const auto& e : log.All()) sym_assert(e.position >= 0 && e.position <= cps, tagPos);
 }
 extern "C" void harness_main() {
-#if PART == 3
+#if PART == 4
+  semantic::RSForm schema;
+  hv::BuildContext(schema);
+  static const char* const FIRST[] = {"X1\n", "X1\n\xE2\x88\xAA\nX2", "\n\n\n", "X1 \xE2\x88\xAA\n", "X1\xE2\x88\xAAX2", "D1\n\\\nD1\n\\X9"};
+  const std::string first = FIRST[sym_concretize_i32(sym_range(0, 5, "first-input"))];
+  rslang::Parser parser;
+  auto auditor = schema.RSLang().MakeAuditor();
+  (void)parser.Parse(first, rslang::Syntax::MATH);
+  (void)auditor->CheckExpression(first, rslang::Syntax::MATH);
+  const std::string text = tokensText();
+  const bool parsed = parser.Parse(text, rslang::Syntax::MATH);
+  checkLog(parser.Errors(), parsed, text, "reused-parser-verdict-iff-no-critical-error", "reused-parser-error-position-inside-input");
+  if (parsed) {
+    const int cps = SizeInCodePoints(text);
+    sym_assert(parser.AST().Root()->pos.start >= 0 && parser.AST().Root()->pos.finish <= cps, "reused-parser-root-range-inside-input");
+  }
+  const bool typeOK = auditor->CheckExpression(text, rslang::Syntax::MATH);
+  checkLog(auditor->Errors(), typeOK, text, "reused-auditor-verdict-iff-no-critical-error", "reused-auditor-error-position-inside-input");
+  sym_reach("reused");
+#elif PART == 3
   semantic::RSModel model;
   hv::BuildContext(model);
   {
